@@ -207,6 +207,13 @@ let do_tb toks now il =
          | Some (ORestored u) -> nonbulk := (int_of_n u, int_of_string sid, t) :: !nonbulk;
            Printf.sprintf "restored:u%d" (int_of_n u)
          | o -> show o None)
+      | [("F" | "A") as kind; k] ->
+        let k = abs (int_of_string k) in
+        let objs = !nonbulk in            (* newest first *)
+        if k < 1 || k > List.length objs then "nosess" else
+        let (u, sid, t) = List.nth objs (k - 1) in
+        let x = { s_uid = n_of_int u; s_sid = n_of_int sid; s_tup = t } in
+        show (do_step (if kind = "F" then VPPFAIL x else AAAREJ x)) None
       | "H" :: sid :: m :: sv :: cv :: rest ->
         let t = mk_tuple m sv cv in
         let a = match rest with [u] -> bytes_of_hex u | _ -> [] in
